@@ -54,6 +54,14 @@ CHECKS = {
          "BFS (<=3/4 live entries, depth 4/5) from the empty map and 12 literals over insert/remove with every key of a 25-key pool (1 vs 1.0, 0 vs -0, separately built equal tuples/strings/ranges, nested tuples, NaN, a class, 5 unhashables) and clear; from a rebuilt copy of every state every operation is executed and followed by a full order-independent dump; compared with M-eval's association-list map.",
          "keys/values/items are compared through order-independent probes. An overwritten entry keeps the first-inserted key object.",
          "5/C12"),
+ "C09": ("explicit-state breadth-first search over the coroutine model M-fiber; every transition replayed on the real VM",
+         "For every pair of scripted fibers (fiber 0: all scripts up to 2/3 actions over a 10-action alphabet under 5 wrappers, with/without parameter; fiber 1: representative or all short scripts) BFS over main-program action sequences (call with 0/1/2 arguments, has_finished, top-level yield) up to length 5/6 with canonical hashing of the model state (status, continuation, handler stack, captured counter per fiber); each of the ~170k (quick) transitions is replayed as a program (definitions + action path) whose printed labels and outcome must equal the model's; the active-fiber/raw-pointer agreement monitor runs at every instruction fetch.",
+         "Exceptions leaving a fiber's outermost frame end the run (fixed by the repository's own script). Which error class wins when a running fiber is re-entered with a wrong argument count is not fixed by the property and is left out.",
+         "5/C09"),
+ "C15": ("explicit-state breadth-first search over snippet histories with reference M-repl; every transition replayed on a fresh real interpreter",
+         "BFS over histories (length 5/7) of 22 snippets (definitions/uses, compile error, uncaught throws from top level, nested calls, a fiber, try/finally, a half-declared class, a built-in inside a method, clean try/finally and try/catch probes, suspended fiber resumed later, import and module mutation, reset) with canonical model state; each transition is the shortest history to its source state plus the snippet, run on one real Vm; per-snippet output and outcome must equal the model's; no panic.",
+         "Counters bounded to keep the state space finite.",
+         "5/C15"),
 }
 NOT_YET = "check not built yet in this revision of /verif (work in progress; see DESIGN.md section 10)"
 
